@@ -26,7 +26,7 @@ class Pool:
     terminals: list of (name, shape); values[e][name][comp] -> Cx
     """
 
-    def __init__(self, terminals, nenv=2, seed=0, complex_env=False, small=False, square_gram=(), tiny=False):
+    def __init__(self, terminals, nenv=2, seed=0, complex_env=False, small=False, square_gram=(), tiny=False, geometry=None):
         """square_gram: names of m x n terminals (n < m) whose Gram determinant det(A^T A) must be a
         perfect square in every environment (so that the pseudo-determinant is rational)."""
         self.terminals = list(terminals)
@@ -64,7 +64,10 @@ class Pool:
             for name, shape in self.terminals:
                 if name in square_gram:
                     env[name] = _square_gram_matrix(shape, rng)
+            if geometry:
+                _geometry_values(env, geometry, e, rng)
             self.values.append(env)
+        self.opts = dict(geometry.get("opts", {})) if geometry else {}
 
     def add_replacement(self, src, img):
         """Register replace(., {src: image}); img = ("term", g) | ("scale", k, g) | ("sum", g, h) |
@@ -137,6 +140,51 @@ def _square_gram_matrix(shape, rng):
         if d > 0 and math.isqrt(d) ** 2 == d and math.isqrt(d) <= 150:
             return {(i, j): Cx(A[i][j]) for i in range(m) for j in range(n)}
     raise RuntimeError("no square-Gram matrix found")
+
+
+def _geometry_values(env, geometry, e, rng):
+    """Consistent cell-map data: J generic integer (gdim x tdim), K its (pseudo-)inverse, detJ the
+    determinant (sign alternates with the environment) or pseudo-determinant, I the identity."""
+    g, t = geometry["gdim"], geometry["tdim"]
+    names = geometry["names"]  # {"J": name, "K": name, "detJ": name, "I": name}
+    for _ in range(100000):
+        if g == t:
+            A = [[rng.randint(-4, 4) for _ in range(t)] for _ in range(g)]
+            d = _idet(A)
+            if d == 0 or abs(d) == 1 or (d > 0) != (e % 2 == 0) or len({abs(x) for r in A for x in r}) < 3 or any(x == 0 for r in A for x in r):
+                continue
+            det = Fraction(d)
+            G = None
+        else:
+            tab = _square_gram_matrix((g, t), rng)
+            A = [[int(tab[(i, j)].re) for j in range(t)] for i in range(g)]
+            G = [[sum(A[k][i] * A[k][j] for k in range(g)) for j in range(t)] for i in range(t)]
+            import math
+
+            det = Fraction(math.isqrt(_idet(G)))
+        break
+    # inverse / pseudo-inverse with Fractions
+    def inv(M):
+        n = len(M)
+        d = Fraction(_idet(M))
+        if n == 1:
+            return [[1 / Fraction(M[0][0])]]
+        cof = [[(-1) ** (i + j) * _idet([r[:j] + r[j + 1 :] for k, r in enumerate(M) if k != i]) for j in range(n)] for i in range(n)]
+        return [[Fraction(cof[j][i]) / d for j in range(n)] for i in range(n)]
+
+    if g == t:
+        Kt = inv(A)
+    else:
+        Gi = inv(G)
+        Kt = [[sum(Gi[r][q] * A[s][q] for q in range(t)) for s in range(g)] for r in range(t)]
+    if "J" in names:
+        env[names["J"]] = {(i, j): Cx(Fraction(A[i][j])) for i in range(g) for j in range(t)}
+    if "K" in names:
+        env[names["K"]] = {(i, j): Cx(Kt[i][j]) for i in range(t) for j in range(g)}
+    if "detJ" in names:
+        env[names["detJ"]] = {(): Cx(det)}
+    for nm, n in geometry.get("identities", {}).items():
+        env[nm] = {(i, j): Cx(1 if i == j else 0) for i in range(n) for j in range(n)}
 
 
 def _idet(M):
